@@ -20,7 +20,8 @@ for p in $props; do
   rc=$?
   grep -E "^(VIOLATION|KNOWN-FINDING|OK |TOOL-ERROR|NOTE)" "work/seed-$id-$p.log" | head -8
   echo "exit=$rc"
-  [ $rc -eq 1 ] || rc_all=1
+  # caught = exit 1 AND a VIOLATION line for that property (an exit code alone proves nothing)
+  { [ $rc -eq 1 ] && grep -q "^VIOLATION property=$p " "/verif/work/seed-$id-$p.log"; } || rc_all=1
 done
 for f in $files; do git -C /repo checkout -- "$f"; done
 [ $rc_all -eq 0 ] && echo "CAUGHT $id" || echo "MISSED $id"
